@@ -61,6 +61,23 @@ def build(tp, env, argv, text, bystander=None):
     return ev, data
 
 
+READ_CONTEXTS = [
+    ("file-level", "let v = %(x)s;\n"),
+    ("file-level", "let v = %(x)s;\n"),
+    ("function-body", "let f = func () => %(x)s;\nlet v = f();\n"),
+    ("module-body", "let m = module {} => (r) { let r = %(x)s; };\nlet v = m{};\n"),
+    ("module-out-expression", "let m = module {} => (%(x)s) { let unused = 1; };\nlet v = m{};\n"),
+    ("function-called-in-module-body", "let m = module {} => (r) { let f = func () => %(x)s; let r = f(); };\nlet v = m{};\n"),
+    ("module-instantiated-in-function", "let m = module {} => (r) { let r = %(x)s; };\nlet f = func () => m{};\nlet v = f();\n"),
+    ("format-template", "let v = \"@{%(x)s}\" %% 1;\n"),
+    ("map-callback", "let v = map(func (i) => %(x)s, [1]).0;\n"),
+    ("reduce-callback", "let v = reduce(func (acc, i) => %(x)s, 0, [1]);\n"),
+    ("select-arm", "let v = select (\"a\", 0) => {a = %(x)s};\n"),
+    ("tuple-field-of-copy", "let t = {a = 1};\nlet v = t{a = %(x)s}.a;\n"),
+    ("module-parameter-default", "let m = module {p = %(x)s} => (mod.p) { let unused = 1; };\nlet v = m{};\n"),
+]
+
+
 def task(args):
     seed, idx, count = args
     r = core.rng_for(seed, "c18", idx)
@@ -124,13 +141,18 @@ def task(args):
                     res.count("unset-name-is-a-near-miss-of-a-set-one")
             while missing in env:
                 missing += "Z"
-            text2 = "let v = %s;\nout json {v = v};\n" % sel(missing)
+            # where the read happens: at file level, or below something that evaluates with a frame of its own
+            ctx_name, ctx = r.choice(READ_CONTEXTS)
+            # inside a string literal the quotes of a quoted selector are escaped
+            xsel = sel(missing).replace('"', '\\"') if ctx_name == "format-template" else sel(missing)
+            text2 = ctx % {"x": xsel} + "out json {v = v};\n"
+            res.count("unset-read-in:" + ctx_name)
             res.case((json.dumps(env, sort_keys=True), "unset-strict", missing), nontrivial=True)
             ev, data = build(tp, env, [], text2)
-            w2 = dict(witness, text=text2, missing=missing)
+            w2 = dict(witness, text=text2, missing=missing, context=ctx_name)
             outtxt = ev["stdout"] + ev["stderr"]
             if ev["exit"] == 0:
-                res.violation(["unset-variable-builds-in-strict-mode"], w2, {"artifact": (data or b"").decode("utf-8", "replace")[:100]})
+                res.violation(["unset-variable-builds-in-strict-mode", ctx_name], w2, {"artifact": (data or b"").decode("utf-8", "replace")[:100]})
             elif ev["exit"] == 1:
                 if missing not in outtxt:
                     res.violation(["diagnostic-does-not-name-the-variable"], w2, {"output": outtxt[-300:]})
@@ -147,19 +169,35 @@ def task(args):
             res.case((json.dumps(env, sort_keys=True), "unset-nostrict", missing), nontrivial=True)
             ev, data = build(tp, env, ["--no-strict"], text2)
             if ev["exit"] != 0 or data is None:
-                res.violation(["unset-variable-fails-in-non-strict-mode"], w2, {"stderr": ev["stderr"][-300:]})
+                res.violation(["unset-variable-fails-in-non-strict-mode", ctx_name], w2, {"stderr": ev["stderr"][-300:]})
             else:
                 try:
                     doc = json.loads(data.decode("utf-8"))
                 except ValueError:
                     doc = {}
-                if doc.get("v", "absent") is not None:
+                if doc.get("v", "absent") is not None and not (ctx_name == "format-template" and doc.get("v") == "NULL"):
                     res.violation(["unset-variable-not-null-in-non-strict-mode"], w2, {"artifact": doc})
                 else:
                     res.count("nostrict-unset-null")
                 leaked = [k for k, v in secrets.items() if v in ev["stdout"] + ev["stderr"]]
                 if leaked:
                     res.violation(["non-strict-warning-discloses-other-variables"], w2, {"leaked": leaked, "output_head": (ev["stdout"] + ev["stderr"])[:300]})
+            # (2b) the same under `ucg test`: strict fails the file, --no-strict sees NULL
+            if r.random() < 0.4:
+                ttext = ctx % {"x": xsel} + "assert {ok = (v == NULL) || (v == \"NULL\"), desc = \"unset is NULL\"};\n"
+                tp.write("u_test.ucg", ttext)
+                wt = dict(witness, text=ttext, missing=missing, context=ctx_name, subcommand="test")
+                for argv, want in ((["--no-strict"], 0), ([], 1)):
+                    ev = core.run_cli(argv + ["test", "u_test.ucg"], tp.root, env=dict(env), timeout=30.0, home=tp.path("home"))
+                    res.case((json.dumps(env, sort_keys=True), "unset-test", missing, tuple(argv)), nontrivial=True)
+                    if ev["exit"] not in (0, 1):
+                        res.count("crash-left-to-C04")
+                    elif ev["exit"] != want:
+                        res.violation(["unset-variable-under-ucg-test", "non-strict-fails" if want == 0 else "strict-passes", ctx_name], wt,
+                                      {"exit": ev["exit"], "output": (ev["stdout"] + ev["stderr"])[-300:]})
+                    else:
+                        res.count("unset-under-ucg-test-ok")
+                os.remove(tp.path("u_test.ucg"))
             # (3) shadowing
             name = names[0] if names else None
             shadow_progs = [
